@@ -210,7 +210,7 @@ pub fn mutations(decl: &VT) -> Vec<(String, VT)> {
 
 /* ------------------------------------- programs ------------------------------------- */
 
-const PRELUDE: &str = "begin
+pub const PRELUDE: &str = "begin
   let VType = @(intrinsic(vtype)) that
   let CType = @(intrinsic(ctype)) that
   let Ret = @(intrinsic(ret)) that
